@@ -31,6 +31,7 @@ import (
 	"math/rand"
 	"net"
 	"os"
+	"runtime/debug"
 	"sort"
 	"strconv"
 	"strings"
@@ -168,8 +169,6 @@ type fdaCtx struct {
 	mu     sync.Mutex
 	fails  []string
 	nkinds int
-	// some lifecycle of the scenario is knowingly not finished at the end (probe of a known finding)
-	incomplete bool
 }
 
 func (x *fdaCtx) failf(format string, a ...interface{}) {
@@ -331,8 +330,9 @@ type fdaScenario struct {
 	name    string
 	run     func(x *fdaCtx)
 	noChurn bool // scenarios that count free descriptor numbers exactly
-	// probes of known findings: number of descriptors expected to stay open at the end
-	expectLeft int
+	// the garbage collector is switched off for the whole run: an object netpoll dropped without closing it (a
+	// net.Listener, an os.File) must not be rescued by its finalizer before the final census
+	noGC bool
 }
 
 func fdaEchoScenario(network string, serverCloses bool, nconn int) func(x *fdaCtx) {
@@ -950,8 +950,8 @@ func fdaRlimitScenario(x *fdaCtx) {
 	}
 }
 
-// CreateListener when the duplicate cannot be made (descriptor limit): probe for the known gap that
-// CreateListener does not close what net.Listen opened
+// CreateListener when the duplicate cannot be made (descriptor limit): CreateListener must close what net.Listen
+// opened before it returns the error (F1, fixed: nothing may be left in the census)
 func fdaRlimitListenerScenario(x *fdaCtx) {
 	var old syscall.Rlimit
 	syscall.Getrlimit(syscall.RLIMIT_NOFILE, &old)
@@ -985,8 +985,9 @@ func fdaRlimitListenerScenario(x *fdaCtx) {
 	}
 }
 
-// The poll manager grows its pool while descriptors run out: probe for the known gap that the pollers opened by
-// a failing manager.Run are neither registered nor closed (nobody can ever close them).
+// The poll manager grows its pool while descriptors run out: the pollers opened and started by the failing
+// manager.Run must be closed by its error path together with the old pool (F2, fixed: Run hands them to the deferred
+// Close; every poller lifecycle of the scenario is complete at the end and nothing may be left in the census).
 func fdaRlimitManagerScenario(x *fdaCtx) {
 	x.usePollManager()
 	var old syscall.Rlimit
@@ -1008,9 +1009,8 @@ func fdaRlimitManagerScenario(x *fdaCtx) {
 	lim := syscall.Rlimit{Cur: uint64(top + 3), Max: old.Max} // room for one poller and a half
 	syscall.Setrlimit(syscall.RLIMIT_NOFILE, &lim)
 	n := int(atomic.LoadInt32(&pollmanager.numLoops))
-	x.kind("poller 2") // opened by Run, never registered: still running at the end
+	x.kind("poller 2") // opened and started by Run, closed again by its error path
 	x.kind("poller 2") // epoll_create works, eventfd fails
-	x.incomplete = true
 	pollmanager.SetNumLoops(n + 3)
 	err := pollmanager.Run()
 	syscall.Setrlimit(syscall.RLIMIT_NOFILE, &old)
@@ -1044,8 +1044,8 @@ func fdaScenarios() []fdaScenario {
 		{name: "dial-register-fails", run: fdaDialRegisterFailScenario},
 		{name: "poller", run: fdaPollerScenario},
 		{name: "rlimit", run: fdaRlimitScenario, noChurn: true},
-		{name: "rlimit-create-listener", run: fdaRlimitListenerScenario, noChurn: true, expectLeft: 1},
-		{name: "rlimit-manager-run", run: fdaRlimitManagerScenario, noChurn: true, expectLeft: 2},
+		{name: "rlimit-create-listener", run: fdaRlimitListenerScenario, noChurn: true, noGC: true},
+		{name: "rlimit-manager-run", run: fdaRlimitManagerScenario, noChurn: true},
 	}
 }
 
@@ -1106,6 +1106,9 @@ func VerifFdAuditMain(args []string) int {
 	})
 	defer watchdog.Stop()
 
+	if sc.noGC {
+		debug.SetGCPercent(-1)
+	}
 	base := fdaCensus()
 	fdaMark("S %s", sc.name)
 	fdaMark("B %s", fdaInts(base))
@@ -1142,18 +1145,8 @@ func VerifFdAuditMain(args []string) int {
 		final = fdaCensus()
 		return fdaInts(final) == fdaInts(base)
 	}
-	if sc.expectLeft > 0 {
-		// descriptors are expected to stay (known finding): wait until only that many are left, then a little more
-		fdaWait(func() bool { final = fdaCensus(); return len(final) <= len(base)+sc.expectLeft }, 8*time.Second)
-		fdaWait(same, 50*time.Millisecond)
-	} else {
-		fdaWait(same, 8*time.Second)
-	}
-	if x.incomplete {
-		fdaMark("E open")
-	} else {
-		fdaMark("E")
-	}
+	fdaWait(same, 8*time.Second)
+	fdaMark("E")
 	fdaMark("F %s", fdaInts(final))
 	ops := int64(0)
 	if churn != nil {
